@@ -595,21 +595,22 @@ def rvalue_operands(rv):
 
 
 IDENTITY_CALLS = (
+    # trait methods as written (callee "f") — value-preserving / same-object conversions
     "core::clone::Clone::clone",
-    "std::clone::Clone::clone",
-    "std::convert::Into::into",
-    "std::convert::From::from",
-    "std::convert::AsRef::as_ref",
-    "std::borrow::Borrow::borrow",
-    "std::ops::Deref::deref",
-    "std::ops::DerefMut::deref_mut",
-    "std::option::Option::<T>::as_ref",
-    "std::option::Option::as_ref",
-    "std::option::Option::as_mut",
-    "std::option::Option::copied",
-    "std::option::Option::cloned",
-    "std::iter::IntoIterator::into_iter",
-    "std::convert::TryFrom::try_from",
+    "core::clone::impls::clone",
+    "core::convert::Into::into",
+    "core::convert::From::from",
+    "core::convert::num::from",
+    "core::convert::AsRef::as_ref",
+    "core::borrow::Borrow::borrow",
+    "core::ops::deref::Deref::deref",
+    "core::ops::deref::DerefMut::deref_mut",
+    "core::option::Option::as_ref",
+    "core::option::Option::as_mut",
+    "core::option::Option::as_deref",
+    "core::option::Option::copied",
+    "core::option::Option::cloned",
+    "core::iter::traits::collect::IntoIterator::into_iter",
 )
 
 
